@@ -174,7 +174,7 @@ def families(tier='quick', seed=0):
     for p in NUM_PATS:
         add('number', p, single('f', S(p)))
     for v, nm in ((('i', 1), 'int1'), (('i', -2), 'int-2'), (('f', 1.5), 'flt1.5'), (('b', True), 'true'),
-                  (('b', False), 'false'), (('null',), 'null')):
+                  (('b', False), 'false'), (('null',), 'null'), (('i', 18446744073709551615), 'u64max'), (('i', 9223372036854775808), 'i64max+1')):
         add('scalar', nm, single('f', v))
     # B: lists on one field
     lists = [
@@ -483,7 +483,7 @@ MUST = {'single/"a\'', 'single/i\'a"', 'single/"',
         'list-mixed/*,>1', 'list-mixed/>=1,<=5', 'quant-short/all:>=1,<=5', 'modifier/str(f) float constant',
         'regex/i?^\\D+$', 'regex/i?\\Sa', 'modifier/{not(f), not(g), h}',
         'modifier/multi-word keys', 'modifier/all(multi-word key)', 'modifier/int(multi-word key)',
-        'modifier/wide-space key', 'modifier/str(wide-space key)', 'quant-ident/all(tabled)', 'quant-ident/of(tabled,2)', 'quant-ident/all(part-tabled)', 'quant-ident/of(part-tabled,2)'}
+        'modifier/wide-space key', 'modifier/str(wide-space key)', 'scalar/u64max', 'scalar/i64max+1', 'quant-ident/all(tabled)', 'quant-ident/of(tabled,2)', 'quant-ident/all(part-tabled)', 'quant-ident/of(part-tabled,2)'}
 
 
 def thin(tpl, quota, rnd):
